@@ -5,6 +5,7 @@ package zzverif
 import (
 	"errors"
 	"fmt"
+	"strconv"
 	"strings"
 	"testing"
 
@@ -716,14 +717,95 @@ func c17UnkShape(t string) string {
 	return t
 }
 
+// --- nested calls of custom functions ---------------------------------------------------
+
+// A case is a generated call tree over three pure custom functions of 1, 2 and 3 Integer
+// parameters; the expected value is computed by the harness from the same tree.  Every
+// argument of every invocation must be the value of its own argument expression, whatever
+// other invocations of the same function happen while the arguments are being evaluated.
+type c17CompCase struct {
+	Src  string `json:"src"`
+	Want int32  `json:"want"`
+}
+
+func c17Neg1(a int32) int32       { return (1000 - a) % 1000 }
+func c17Sub2(a, b int32) int32    { return ((a-b)%1000 + 1000) % 1000 }
+func c17Mix3(a, b, c int32) int32 { return (a*7 + b*3 + c) % 1000 }
+
+func c17GenCompTree(s Src, depth int) (string, int32) {
+	if depth <= 0 || s.Prob(30) {
+		v := int32(s.Range(0, 999))
+		return strconv.Itoa(int(v)), v
+	}
+	switch s.Intn(3) {
+	case 0:
+		a, av := c17GenCompTree(s, depth-1)
+		return "neg1(" + a + ")", c17Neg1(av)
+	case 1:
+		a, av := c17GenCompTree(s, depth-1)
+		b, bv := c17GenCompTree(s, depth-1)
+		return "sub2(" + a + ", " + b + ")", c17Sub2(av, bv)
+	}
+	a, av := c17GenCompTree(s, depth-1)
+	b, bv := c17GenCompTree(s, depth-1)
+	c, cv := c17GenCompTree(s, depth-1)
+	return "mix3(" + a + ", " + b + ", " + c + ")", c17Mix3(av, bv, cv)
+}
+
+func c17GenComp(s Src) c17CompCase {
+	src, want := c17GenCompTree(s, s.Range(1, 4))
+	if s.Prob(25) { // once per item of a two-item receiver
+		return c17CompCase{Src: "Patient.name.take(2).select(" + src + ").distinct()", Want: want}
+	}
+	return c17CompCase{Src: src, Want: want}
+}
+
+func c17RunComp(ctx *Ctx, c c17CompCase) {
+	calls := 0
+	neg1 := func(in system.Collection, a system.Integer) (system.Collection, error) {
+		calls++
+		return system.Collection{system.Integer(c17Neg1(int32(a)))}, nil
+	}
+	sub2 := func(in system.Collection, a, b system.Integer) (system.Collection, error) {
+		calls++
+		return system.Collection{system.Integer(c17Sub2(int32(a), int32(b)))}, nil
+	}
+	mix3 := func(in system.Collection, a, b, d system.Integer) (system.Collection, error) {
+		calls++
+		return system.Collection{system.Integer(c17Mix3(int32(a), int32(b), int32(d)))}, nil
+	}
+	nested := strings.Count(c.Src, "(") >= 2
+	ctx.Eval(c.Src, nested, "stage:nested-custom-calls", fmt.Sprintf("nested:%v", nested))
+	var e *fhirpath.Expression
+	var cerr error
+	g := guard(func() {
+		e, cerr = fhirpath.Compile(c.Src, compopts.AddFunction("neg1", neg1), compopts.AddFunction("sub2", sub2), compopts.AddFunction("mix3", mix3))
+	})
+	if g.Panic != "" || cerr != nil || e == nil {
+		ctx.Fail("functions: a call tree of well-typed custom functions does not compile", fmt.Sprintf("%s: %v %s", c.Src, cerr, g.Panic))
+		return
+	}
+	for round := 1; round <= 2; round++ {
+		var coll system.Collection
+		var err error
+		g = guard(func() { coll, err = e.Evaluate(fixtureInput(fixturePatient())) })
+		got := renderColl(coll)
+		if g.Panic != "" || err != nil || got != fmt.Sprintf("[Integer:%d]", c.Want) {
+			ctx.Fail(fmt.Sprintf("functions: nested custom function calls do not receive their own argument values (evaluation %d)", round), fmt.Sprintf("%s → %s err=%v panic=%s, want [Integer:%d]", c.Src, got, err, g.Panic, c.Want))
+			return
+		}
+	}
+}
+
 func TestC17(t *testing.T) {
 	r := newRec("C17",
-		"evaluate-option cases: lists of 0..4 EnvVariable options (+ optionally OverrideTime) over {System value, element, resource, collection, empty collection, nested collection, duplicate name, predefined name context/ucum, unsupported Go int/string/struct/nil, unsupported value nested one and two levels inside collections, generated collection shapes (1..5 items per level, ≤ 3 levels, supported and unsupported items at any position)} in drawn order, with a program that references one of the variables at the root, inside select/where criteria, inside a custom-function argument, or %context/%ucum/%nope; instrumented custom functions count invocations and record input and arguments; an enumeration stage covers all orders of all lists of length ≤ 2 (quick) / ≤ 3 (thorough) over 12 option kinds.  compile-option cases: four well-typed functions plus 0..4 of {good 0/1/2-ary, proto-typed, wrong first parameter, wrong results, non-function, no parameters, variadic, built-in name, duplicate name} in rotated order × 15 call shapes (right/wrong argument types and counts, call sites at the root, in select, in where) × {returns collection, returns wrapped sentinel error, returns empty}.  non-trivial = ≥ 2 options with an invalid one among valid ones, or a variable referenced below the root, or a custom function call; distinct = FNV-64 of (options, program).  Unknown-variable cases: %nope placed in every context that must evaluate it (either side of every operator, receiver and each argument of every implemented table function with well-typed other operands, criteria over a non-empty receiver, the taken iif branch), alone and nested 2..3 deep: Evaluate must return an error; the same programs with the variable supplied are control runs",
+		"evaluate-option cases: lists of 0..4 EnvVariable options (+ optionally OverrideTime) over {System value, element, resource, collection, empty collection, nested collection, duplicate name, predefined name context/ucum, unsupported Go int/string/struct/nil, unsupported value nested one and two levels inside collections, generated collection shapes (1..5 items per level, ≤ 3 levels, supported and unsupported items at any position)} in drawn order, with a program that references one of the variables at the root, inside select/where criteria, inside a custom-function argument, or %context/%ucum/%nope; instrumented custom functions count invocations and record input and arguments; an enumeration stage covers all orders of all lists of length ≤ 2 (quick) / ≤ 3 (thorough) over 12 option kinds.  compile-option cases: four well-typed functions plus 0..4 of {good 0/1/2-ary, proto-typed, wrong first parameter, wrong results, non-function, no parameters, variadic, built-in name, duplicate name} in rotated order × 15 call shapes (right/wrong argument types and counts, call sites at the root, in select, in where) × {returns collection, returns wrapped sentinel error, returns empty}.  non-trivial = ≥ 2 options with an invalid one among valid ones, or a variable referenced below the root, or a custom function call; distinct = FNV-64 of (options, program).  Nested-call cases: generated call trees (depth ≤ 4) over three pure custom functions of 1, 2 and 3 Integer parameters, at the root or once per item inside select(), evaluated twice: the result must equal the harness-side evaluation of the same tree.  Unknown-variable cases: %nope placed in every context that must evaluate it (either side of every operator, receiver and each argument of every implemented table function with well-typed other operands, criteria over a non-empty receiver, the taken iif branch), alone and nested 2..3 deep: Evaluate must return an error; the same programs with the variable supplied are control runs",
 		"nested collections as variable values and variadic functions are executed for totality only (the statement does not define them)")
 	runProperty(t, r,
 		Stage[c17EvalCase]{Name: "option-orders", Enum: c17EnumEval, Run: c17RunEval},
 		Stage[c17EvalCase]{Name: "variables", Gen: c17GenEval, Run: c17RunEval, N: pick(18000, 150000)},
 		Stage[c17FnCase]{Name: "functions", Gen: c17GenFn, Run: c17RunFn, N: pick(18000, 150000)},
+		Stage[c17CompCase]{Name: "nested-custom-calls", Gen: c17GenComp, Run: c17RunComp, N: pick(6000, 100000)},
 		Stage[c17UnkCase]{Name: "unknown-variable-contexts", Enum: c17EnumUnk, Run: c17RunUnk},
 		Stage[c17UnkCase]{Name: "unknown-variable-nested", Gen: c17GenUnk, Run: c17RunUnk, N: pick(9000, 60000)},
 	)
